@@ -289,7 +289,11 @@ fn prepare_response(
     match head.status {
         http::StatusCode::NO_CONTENT
         | http::StatusCode::CONTINUE
-        | http::StatusCode::PROCESSING => *size = BodySize::None,
+        | http::StatusCode::PROCESSING => {
+            // these responses have no body: do not forward a user-set Content-Length either
+            skip_len = true;
+            *size = BodySize::None;
+        }
         http::StatusCode::SWITCHING_PROTOCOLS => {
             skip_len = true;
             *size = BodySize::Stream;
